@@ -8,7 +8,7 @@ CONSTANTS
   NVSpace = "none"
   NCompoundV = "none"
   NKinds = {}
-  FKinds = {"asg", "save", "use", "ret", "ifflag", "ifok", "ifc", "else", "whflag", "whok", "whc", "ifwal", "ifand", "ifor"}
+  FKinds = {"asg", "use", "ret", "ifflag", "ifc", "else", "whflag", "whc", "ifwal", "ifand", "ifor"}
   FConds = {"int"}
   FLits = {"None"}
   FDecls = {"isn"}
